@@ -511,7 +511,54 @@ def _shape_only(v):
     return type(v).__name__
 
 
+# kernels whose vector / chain arguments share one length n: every case is also run on the prefixes of length 1 .. n-1
+# (deterministic coverage of every length; generated lengths alone clump - see DESIGN section 7)
+PREFIXABLE = ("EulerStep", "JointTrajectory", "FKinSpace", "FKinBody", "JacobianSpace", "JacobianBody")
+
+
+def _prefix_cases(case):
+    args = case["args"]
+    n = None
+    for a in args:
+        if isinstance(a, np.ndarray) and a.ndim == 1:
+            n = a.shape[0]
+            break
+    if n is None or n < 2:
+        return
+    for k in range(1, n):
+        sub = []
+        for a in args:
+            if isinstance(a, np.ndarray) and a.ndim == 1 and a.shape[0] == n:
+                sub.append(np.ascontiguousarray(a[:k]))
+            elif isinstance(a, np.ndarray) and a.ndim == 2 and a.shape == (6, n):
+                sub.append(np.ascontiguousarray(a[:, :k]))
+            else:
+                sub.append(a)
+        c = dict(case)
+        c["args"] = sub
+        yield k, c
+
+
 def check_kernel(case, ctx):
+    _check_kernel_one(case, ctx)
+    if case["kernel"] in PREFIXABLE:
+        for k, sub in _prefix_cases(case):
+            try:
+                _check_kernel_one(sub, None)
+            except Violation as v:
+                raise Violation("(arguments cut to length %d) %s" % (k, v)) from None
+
+
+class _NoCtx:
+    def label(self, *a, **k):
+        pass
+
+    def nontrivial(self, *a, **k):
+        pass
+
+
+def _check_kernel_one(case, ctx):
+    ctx = ctx if ctx is not None else _NoCtx()
     _inventory()
     name = case["kernel"]
     lays = case["layouts"]
